@@ -82,6 +82,26 @@ func init() {
 	// direct predicates on bytes produced by the real writer: the expected value is fixed
 	ops["header.wf"] = func(f Fields) string { return "wf" }
 	ops["header.parse"] = func(f Fields) string { return f["want"] }
+	// direct predicate: the library's own reader returns exactly the tables that were written
+	ops["header.readback"] = func(f Fields) string {
+		return canonPanic(guard(func() string {
+			data := f.Hex("file")
+			rd := bytes.NewReader(data)
+			info, err := header.Read(rd)
+			if err != nil {
+				return errKind(err)
+			}
+			out := map[string]string{}
+			for k := range info.Toc {
+				b, err := info.ReadTableBytes(rd, k)
+				if err != nil {
+					return "err:table:" + hx([]byte(k))
+				}
+				out[k] = hx(b)
+			}
+			return fmt.Sprintf("%d;", info.ScalerType) + showTabs(out)
+		}))
+	}
 	ops["header.read"] = func(f Fields) string {
 		return canonPanic(guard(func() string {
 			data := f.Hex("file")
@@ -245,6 +265,9 @@ func headerCase(c *Ctx, sc uint32, tabs map[string][]byte, inDomain bool) {
 	c.Case(Direct, "header.wf", "file="+file, nontriv)
 	c.Case(Direct, "header.parse", "file="+file+" want="+want, nontriv)
 	c.Case(Verdict, "header.read", "file="+file, nontriv)
+	if len(tabs) <= 280 && (sc == header.ScalerTypeTrueType || sc == header.ScalerTypeCFF || sc == header.ScalerTypeApple) {
+		c.Case(Direct, "header.readback", "file="+file+" want="+want, nontriv)
+	}
 	// malformed stream for the reader: mutate the written file
 	data := mustHex(file)
 	for k := 0; k < 3; k++ {
